@@ -33,11 +33,14 @@ def main():
         scen.append(m)
 
     base = models.catalogue(thorough)
+    base += [dict(models.dimer(), id="tiny:dimer", unit_log2=30), dict(models.shifted(models.spinflip_atom(), 64), id="tiny:shift:sxatom", unit_log2=28)]
     nrand = 40 if not thorough else 400
     for k in range(nrand):
         base.append(models.random_model(rng, "rnd%d" % k, max_modes=4 if not thorough else 6))
         if k % 4 == 1:      # a constant on top: spectrum strictly positive, the vacuum is not at 0 and the ground energy not <= 0
             base[-1] = models.shifted(base[-1], 128 if k % 8 == 1 else 512)
+        if k % 4 == 3:      # the same physics in an energy unit of 2^-30 (2^-27): no absolute threshold may decide what a matrix element is
+            base[-1] = dict(base[-1], id="tiny:" + base[-1]["id"], unit_log2=30 if k % 8 == 3 else 27)
     for m in base:
         add(m, {"mode": "default"})
         if rng.random() < 0.5 or thorough:
